@@ -28,10 +28,37 @@ def _init_constant(src, cls, attr):
         raise py2coq.Untranslatable("%s:%s.__init__: self.%s is not a literal" % (EVPY, cls, attr))
 
 
+BASEPY = "acnportal/acnsim/base.py"
+
+
+def _defines(src, cls, name):
+    c = src.find(cls)
+    return any(isinstance(n, ast.FunctionDef) and n.name == name for n in c.body) or \
+        any(isinstance(n, ast.Assign) and any(isinstance(t, ast.Name) and t.id == name for t in n.targets) for n in c.body)
+
+
+def _check_comparison_protocol(repo, src):
+    """Model/Events.v's `item_lt` hand-models Python's tuple comparison of (timestamp, event) under two facts
+    about the event classes: `==` on events is object identity (no class defines __eq__), and `<` on events is
+    Event.__lt__ (no subclass overrides it).  Refuse to generate when either fact no longer holds."""
+    base = py2coq.Source(repo, BASEPY)
+    if _defines(base, "BaseSimObj", "__eq__") or _defines(base, "BaseSimObj", "__lt__"):
+        raise py2coq.Untranslatable("%s: BaseSimObj defines a comparison method; the tuple-comparison model "
+                                    "(identity ==, Event.__lt__) is no longer justified" % BASEPY)
+    for cls in ["Event", "EVEvent", "PluginEvent", "UnplugEvent", "RecomputeEvent"]:
+        if _defines(src, cls, "__eq__"):
+            raise py2coq.Untranslatable("%s: %s defines __eq__; events are modelled as compared by identity" % (EVPY, cls))
+        if cls != "Event" and _defines(src, cls, "__lt__"):
+            raise py2coq.Untranslatable("%s: %s overrides __lt__; only Event.__lt__ is translated" % (EVPY, cls))
+
+
 def generate(repo):
     try:
         src = py2coq.Source(repo, EVPY)
-        lines = ["From Coq Require Import ZArith String.", "Open Scope string_scope.", "Open Scope Z_scope.", ""]
+        _check_comparison_protocol(repo, src)
+        lines = ["From Coq Require Import ZArith String.", "Open Scope string_scope.", "Open Scope Z_scope.", "",
+                 "(* checked on this run: no event class defines __eq__ (events compare == by identity) and no subclass",
+                 "   of Event overrides __lt__ — the two facts behind Model/Events.v item_lt *)", ""]
         info = []
         for cls, short in CLASSES:
             prec, fn = _init_constant(src, cls, "precedence")
